@@ -288,6 +288,9 @@ class Evaluator:
                 return ('map', it[1], ('lam', lam[1], body))
         if name == 'map' and lam[0] == 'lam' and lam[2] in (T.bv(lam[1]), T.as_lin(T.bv(lam[1]))):
             return it       # map(it, |x| x)
+        if name == 'filter_map' and lam[0] == 'lam' and isinstance(lam[2], tuple) and lam[2] and lam[2][0] == 'boolthen':
+            # filter_map(|x| c(x).then(|| v(x)))  ==  filter(c).map(v)
+            return self.stage('map', ('filter', it, ('lam', lam[1], lam[2][1])), ('lam', lam[1], lam[2][2]))
         return (name, it, lam)
 
     def shift_bv(self, t, frm, to):
@@ -1282,7 +1285,30 @@ class Evaluator:
             env[lid] = v
             return
         cur = env.get(lid, ('free', p['name'], lid))
+        cur = self.as_struct_literal(cur, place, fields)
         env[lid] = self.update_field(cur, list(reversed(fields)), v)
+
+    def as_struct_literal(self, cur, place, fields):
+        """`x.f = v` on a value x of a known struct type: write x as the struct literal of its fields first, so that
+        copy-and-update and construction from the parts are one term"""
+        cu = T.unroot(cur)
+        if isinstance(cu, tuple) and cu and cu[0] in ('struct', 'upd') or len(fields) != 1:
+            return cur
+        q = place
+        while q.get('k') in ('DropTemps', 'Use'):
+            q = q['e']
+        if q.get('k') != 'Field':
+            return cur
+        bty = strip_refs(q.get('base_ty', ''))
+        if bty.startswith('std::boxed::Box<'):
+            bty = bty[len('std::boxed::Box<'):].rsplit('>', 1)[0].split(',')[0]
+        adt = self.crate.adts.get(bty.split('<')[0])
+        if not adt or adt.get('kind') != 'Struct' or len(adt.get('variants', [])) != 1:
+            return cur
+        names = [f['name'] for f in adt['variants'][0]['fields']]
+        if not names or any(n.isdigit() for n in names) or bty.split('<')[0] in self.newtypes:
+            return cur
+        return T.struct(bty.split('<')[0], {n: T.fld(cur, n) for n in names})
 
     def update_field(self, cur, fields, v):
         f = fields[0]
@@ -1304,7 +1330,11 @@ class Evaluator:
         return ('ret', v)
 
     def ev_Break(self, e, env, body, depth):
-        self.emit('break', e, body)
+        if e.get('e') is not None:
+            v = self.ev(e['e'], env, body, depth)
+            self.emit('break', e, body, value=v)
+        else:
+            self.emit('break', e, body)
         return ('unit',)
 
     def ev_Continue(self, e, env, body, depth):
@@ -1409,11 +1439,41 @@ class Evaluator:
             if dk.startswith('Ctor'):
                 return self.ctor(fp.get('ctor_of', fp['def']), args)
             if dk in ('Fn', 'AssocFn'):
+                v = self.ufcs_delegation(fp, args, e, body, depth)
+                if v is not None:
+                    return v
                 return self.call_fn(fp['def'], fp.get('targs', []), args, e, body, depth)
         if fp is not None and fp.get('res') == 'SelfCtor':
             return self.ctor(strip_refs(e.get('ty', fp.get('def', '?'))).split('<')[0], args)
         fv = self.ev(f, env, body, depth)
         return self.apply(fv, args, depth)
+
+    def ufcs_delegation(self, fp, args, e, body, depth):
+        """`<S as Trait>::m(x, ..)` inside the implementation of Trait::m for another type: the same delegation as
+        `x.m(..)` with a receiver of type S (e.g. the Vec<T> impl forwarding to the [T] impl)"""
+        if body is None or not body.raw.get('impl_trait') or not fp.get('local') or not fp.get('targs'):
+            return None
+        tr = body.raw['impl_trait']
+        name = body.raw.get('assoc_name')
+        if fp.get('def') != f'{tr}::{name}':
+            return None
+        import re as _re
+        ty = strip_refs(fp['targs'][0])
+        for imp in self.crate.impls:
+            if imp.get('trait') == tr and _re.sub(r'/#\d+', '', strip_refs(imp.get('self_ty', ''))) == ty:
+                for it in imp['items']:
+                    if it['name'] == name:
+                        b = self.crate.body(it['path'])
+                        if b is None or b is body or depth >= self.max_depth or it['path'] in [c for c, _, _ in self.stack]:
+                            return None
+                        if self.has_loop(b):
+                            return self.try_inline_loop_fn(b, it['path'], args, e, body, depth)
+                        self.stack.append((it['path'], e, body))
+                        try:
+                            return self.unwrap_ret(self.eval_body(b, args, depth + 1))
+                        finally:
+                            self.stack.pop()
+        return None
 
     def static_impl(self, e):
         """the implementation a trait-method call is statically dispatched to, when the receiver's type is literally the
@@ -1452,6 +1512,23 @@ class Evaluator:
                         return self.unwrap_ret(self.eval_body(b, args, depth + 1))
                     finally:
                         self.stack.pop()
+        if impl_path is None and not same_method and body is not None and body.raw.get('impl_trait') and body.raw.get('impl_trait') == e.get('callee_trait'):
+            # another method of the same trait on a receiver of the impl's own type: statically dispatched; inlined when the
+            # target is a plain expression (no branching, no panic-capable site, no loop)
+            ip = self.static_impl(e)
+            b2 = self.crate.body(ip) if ip else None
+            if b2 is not None and b2 is not body and not self.has_loop(b2) and depth < self.max_depth and ip not in [c for c, _, _ in self.stack]:
+                mark = len(self.events)
+                self.stack.append((ip, e, body))
+                try:
+                    v = self.unwrap_ret(self.eval_body(b2, args, depth + 1))
+                finally:
+                    self.stack.pop()
+                plain = not any(isinstance(y, tuple) and y and y[0] in ('ite', 'match') for y in T.subterms(v)) and \
+                    not any(x['kind'] in ('ret', 'panic', 'assign', 'mutcall', 'unwrap', 'index') for x in self.events[mark:])
+                if plain:
+                    return v
+                del self.events[mark:]
         adj = e['recv'].get('adj') or []
         if e['name'] in ('sort', 'sort_unstable') and ('slice' in callee or 'Vec' in callee) and not e['args']:
             # in-place sort of a local collection: the local now holds the sorted sequence
@@ -1510,6 +1587,8 @@ class Evaluator:
         if name in ('from', 'into') and path in ('std::convert::From::from', 'std::convert::Into::into'):
             # conversions among numeric-like types are the identity
             tys = [strip_refs(t) for t in targs]
+            if len(tys) > 1 and tys[1] == 'bool' and T.is_bool(T.unroot(a0)) and self.is_numeric_ty(tys[0]):
+                return T.ind(T.unroot(a0))      # usize::from(b) is `b as usize`
             if tys and all(self.is_numeric_ty(t) for t in tys[:2]):
                 return a0
             to = tys[0] if tys else '?'
@@ -1706,6 +1785,8 @@ class Evaluator:
             d = self.bvd
             win = T.tup(*[T.root(('idx', base, T.sub(T.as_lin(T.bv(d)), T.const(k - 1 - j)))) for j in range(k)])
             return ('map', ('range', T.add(lo, T.const(k - 1)), hi), ('lam', d, win))
+        if name in ('as_slice', 'as_mut_slice') and len(args) == 1 and 'Vec' in path:
+            return a0
         if name in ('get', 'get_mut') and len(args) == 2 and ('slice' in path or 'Vec' in path) and self.numericish(args[1]):
             base = T.unroot(a0)
             if isinstance(base, tuple) and base and base[0] == 'elemhavoc':
